@@ -51,7 +51,7 @@ bits! {
 #[cfg(any(feature = "c01", feature = "c06"))]
 #[kani::proof]
 #[kani::unwind(10)]
-pub fn c06q_bitvec_stale_padding_is_not_encoded() {
+pub fn c06x_bitvec_stale_padding_is_not_encoded() {
 	let w: u8 = kani::any();
 	let payload = [w];
 	let r = BitVec::<u8, Lsb0>::decode(&mut Pre::count(5, &payload[..]));
@@ -67,7 +67,7 @@ pub fn c06q_bitvec_stale_padding_is_not_encoded() {
 #[cfg(any(feature = "c01", feature = "c06"))]
 #[kani::proof]
 #[kani::unwind(10)]
-pub fn c06q_bitbox_at_offset() {
+pub fn c06x_bitbox_at_offset() {
 	let w: [u8; 1] = kani::any();
 	let b: BitBox<u8, Lsb0> = BitBox::from_bitslice(&w.view_bits::<Lsb0>()[2..5]);
 	let mut real = Buf::<4>::new();
